@@ -207,10 +207,16 @@ def r2_normal_form(repo, rep, table):
       factors.append(e)
   collect(prod)
   combs = {}
+  unmodelled = False
   for fac in factors:
     if not (isinstance(fac, ast.Call) and len(fac.args) >= 2):
-      rep.violation('R2/normal-form', f.qualname, 'factor ' + norm(fac)[:80],
-                    'the summand contains the factor `%s`, which is not a binomial coefficient comb(N, k, exact=True)' % norm(fac)[:80], f.loc(acc.ast))
+      if isinstance(fac, ast.Constant) and isinstance(fac.value, (int, float)) and fac.value != 1:
+        rep.violation('R2/normal-form', f.qualname, 'factor ' + norm(fac)[:80],
+                      'the summand is multiplied by the constant %s: the count is not the number of designs' % norm(fac), f.loc(acc.ast))
+        continue
+      # a factor that is itself accumulated elsewhere (factored sums, lookup tables): a different algorithm, not decided here
+      rep.undecided('R2/normal-form', 'count_max_designs', 'the summand contains the factor `%s`, which is not a binomial coefficient of a loop index: the count is computed by an algorithm this rule does not model' % norm(fac)[:60], f.loc(acc.ast))
+      unmodelled = True
       continue
     N = sympy.simplify(sym.to_sym(fac.args[0], leaf))
     k = norm(fac.args[1])
@@ -236,19 +242,41 @@ def r2_normal_form(repo, rep, table):
       if firsts and sympy.simplify(E - (class_symbol(k) - sym.symbol(firsts[0]))) == 0:
         role[v] = (k, 'second')
         used.add((k, 'second'))
-  want_roles = {(k, 'first') for k in two_way} | {(k, 'first') for k in three_way} | {(k, 'second') for k in three_way}
-  rep.check(set(role.values()) == want_roles and len(role) == len(ranges), 'R2/normal-form',
-            'one index per two-way class and two nested indices for the three-way class, each over 0..available', f.qualname,
-            'loops: ' + ', '.join('%s in 0..%s' % (v, E) for v, E in sorted(ranges.items())),
-            'the loop indices %s do not correspond to the classes of the placement table (expected %s): some placements are not counted or counted twice'
-            % ({v: str(E) for v, E in ranges.items()}, sorted(want_roles)), f.loc(loops[0]) if loops else f.loc())
-  for v, E in sorted(ranges.items()):
-    got = combs.get(v, [])
-    rep.check(len(got) == 1 and sympy.simplify(got[0] - E) == 0, 'R2/normal-form', 'index %s carries the factor C(%s, %s)' % (v, E, v), f.qualname,
-              'factor for %s: %s' % (v, [str(x) for x in got]),
-              'the number of ways to choose %s geos is counted as %s instead of C(%s, %s)' % (v, ['C(%s,%s)' % (x, v) for x in got], E, v), f.loc(acc.ast))
-  extra = set(combs) - set(ranges)
-  rep.check(not extra, 'R2/normal-form', 'no binomial over a non-index', f.qualname, 'extra factors %s' % sorted(extra), 'extra binomial factors %s' % sorted(extra), f.loc(acc.ast))
+  if not unmodelled:
+    want_roles = {(k, 'first') for k in two_way} | {(k, 'first') for k in three_way} | {(k, 'second') for k in three_way}
+    rep.check(set(role.values()) == want_roles and len(role) == len(ranges), 'R2/normal-form',
+              'one index per two-way class and two nested indices for the three-way class, each over 0..available', f.qualname,
+              'loops: ' + ', '.join('%s in 0..%s' % (v, E) for v, E in sorted(ranges.items())),
+              'the loop indices %s do not correspond to the classes of the placement table (expected %s): some placements are not counted or counted twice'
+              % ({v: str(E) for v, E in ranges.items()}, sorted(want_roles)), f.loc(loops[0]) if loops else f.loc())
+    for v, E in sorted(ranges.items()):
+      got = combs.get(v, [])
+      rep.check(len(got) == 1 and sympy.simplify(got[0] - E) == 0, 'R2/normal-form', 'index %s carries the factor C(%s, %s)' % (v, E, v), f.qualname,
+                'factor for %s: %s' % (v, [str(x) for x in got]),
+                'the number of ways to choose %s geos is counted as %s instead of C(%s, %s)' % (v, ['C(%s,%s)' % (x, v) for x in got], E, v), f.loc(acc.ast))
+    extra = set(combs) - set(ranges)
+    rep.check(not extra, 'R2/normal-form', 'no binomial over a non-index', f.qualname, 'extra factors %s' % sorted(extra), 'extra binomial factors %s' % sorted(extra), f.loc(acc.ast))
+  # the treatment size used anywhere in the count: a sum with coefficient 1 on the "in treatment" index of every class that
+  # can go to treatment must also contain every class that is forced into treatment (positively recognised, whatever the
+  # rest of the algorithm looks like)
+  forced_t = sum(class_symbol(k) for k, v in forced.items() if next(iter(v))[0] == 1)
+  trt_idx = [v for v, (k, pos) in role.items() if pos == 'first' and any(o[0] == 1 for o in table[k])]
+  if len(trt_idx) >= 2:
+    for n_ in g.nodes:
+      if n_.kind == 'stmt' and isinstance(n_.ast, ast.Assign) and len(n_.ast.targets) == 1 and isinstance(n_.ast.targets[0], ast.Name):
+        try:
+          L = sympy.expand(sym.to_sym(rd.expand(n_, n_.ast.value, keep=tuple(idx_names))[0], leaf))
+        except (Undecided, Exception):
+          continue
+        if not all(L.coeff(sym.symbol(v)) == 1 for v in trt_idx):
+          continue
+        rest = sympy.expand(L - sum(sym.symbol(v) for v in trt_idx))
+        if any(rest.has(sym.symbol(v)) for v in idx_names):
+          continue
+        rep.check(sympy.simplify(rest - forced_t) == 0, 'R2/guards', 'treatment size %s = forced treatment geos + chosen geos' % n_.ast.targets[0].id, f.qualname,
+                  '%s = %s' % (n_.ast.targets[0].id, L),
+                  'the treatment group size is computed as `%s`: the geos forced into treatment (%s) are %s, so treatment sizes are matched against the wrong admissible sizes'
+                  % (L, forced_t, 'missing' if sympy.simplify(rest) == 0 else 'not counted exactly once'), f.loc(n_.ast))
   # linear forms and guards
   guards = {}
   for test, taken, ifst in conds:
@@ -260,6 +288,8 @@ def r2_normal_form(repo, rep, table):
     ex = rd.expand(node, test.left, keep=tuple(idx_names))[0]
     lin[nm] = (sympy.expand(sym.to_sym(ex, leaf)), norm(rd.expand(node, test.comparators[0], keep=tuple(idx_names) + tuple(guards))[0]), ifst)
   trt = [nm for nm, (e, s, i) in lin.items() if re.fullmatch(r'set\(self\.treatment_group_size_range\(\)\)', s)]
+  if len(trt) != 1 and unmodelled:
+    return f
   if len(trt) != 1:
     rep.violation('R2/guards', f.qualname, 'guards: %s' % {k: v[1] for k, v in lin.items()},
                   'the summand is not guarded by "treatment size in set(self.treatment_group_size_range())": designs of inadmissible treatment sizes are counted', f.loc())
@@ -281,6 +311,8 @@ def r2_normal_form(repo, rep, table):
             okc, cname = True, nm
     elif s == 'set(self._control_group_size_generator(%s))' % tname:
       okc, cname = True, nm
+  if not okc and unmodelled:
+    return f
   rep.check(okc, 'R2/guards', 'control size is tested against the sizes admissible for the treatment size', f.qualname,
             'guards: %s' % {k: v[1] for k, v in lin.items()},
             'the summand is not guarded by "control size in set(self._control_group_size_generator(treatment size))": pairs with inadmissible size combinations are counted', f.loc())
